@@ -1081,13 +1081,26 @@ func (m *metadataAPI) AddStream(protoStream *proto.Stream, recovered bool, epoch
 		return nil, errors.New("stream has no partitions")
 	}
 
+	stream, replaced, err := m.addStreamLocked(protoStream, recovered)
+	if replaced {
+		// The stream recreated here takes the place of one that was deleted
+		// earlier in the log being replayed (see RemoveStream).
+		m.streamDeleted(protoStream.Name, epoch)
+	}
+	return stream, err
+}
+
+// addStreamLocked adds the stream under the metadata lock. It reports whether
+// a tombstoned stream of the same name was removed to make room for it.
+func (m *metadataAPI) addStreamLocked(protoStream *proto.Stream, recovered bool) (*stream, bool, error) {
 	m.mu.Lock()
 	defer m.mu.Unlock()
 
+	replaced := false
 	existing, ok := m.streams[protoStream.Name]
 	if ok {
 		if !recovered {
-			return nil, ErrStreamExists
+			return nil, false, ErrStreamExists
 		}
 		// If this operation is being applied during recovery, check if this
 		// stream is tombstoned, i.e. was marked for deletion previously. If it
@@ -1096,14 +1109,15 @@ func (m *metadataAPI) AddStream(protoStream *proto.Stream, recovered bool, epoch
 		if !existing.IsTombstoned() {
 			// This is an invalid state because it means the stream already
 			// exists.
-			return nil, ErrStreamExists
+			return nil, false, ErrStreamExists
 		}
 		// Un-tombstone by closing the existing stream and removing it from
 		// the streams store so that it can be recreated.
 		if err := existing.Close(); err != nil {
-			return nil, err
+			return nil, false, err
 		}
-		m.removeStream(existing, epoch)
+		m.removeStream(existing)
+		replaced = true
 	}
 
 	config := protoStream.GetConfig()
@@ -1113,8 +1127,8 @@ func (m *metadataAPI) AddStream(protoStream *proto.Stream, recovered bool, epoch
 
 	for _, partition := range protoStream.Partitions {
 		if err := m.addPartition(stream, partition, recovered, config); err != nil {
-			m.removeStream(stream, epoch)
-			return nil, err
+			m.removeStream(stream)
+			return nil, replaced, err
 		}
 	}
 
@@ -1128,7 +1142,7 @@ func (m *metadataAPI) AddStream(protoStream *proto.Stream, recovered bool, epoch
 	}
 	m.stats.Unlock()
 
-	return stream, nil
+	return stream, replaced, nil
 }
 
 func (m *metadataAPI) addPartition(stream *stream, protoPartition *proto.Partition, recovered bool, config *proto.StreamConfig) error {
@@ -1447,6 +1461,16 @@ func (m *metadataAPI) resetFailovers() {
 // tombstone. Tombstoned streams will be deleted after the recovery process
 // completes.
 func (m *metadataAPI) RemoveStream(stream *stream, recovered bool, epoch uint64) error {
+	if err := m.removeStreamLocked(stream, recovered, epoch); err != nil {
+		return err
+	}
+	if !recovered {
+		m.streamDeleted(stream.GetName(), epoch)
+	}
+	return nil
+}
+
+func (m *metadataAPI) removeStreamLocked(stream *stream, recovered bool, epoch uint64) error {
 	m.mu.Lock()
 	defer m.mu.Unlock()
 
@@ -1487,8 +1511,29 @@ func (m *metadataAPI) RemoveTombstonedStream(stream *stream, epoch uint64) error
 		return fmt.Errorf("cannot delete stream %s because it is not tombstoned", stream)
 	}
 	m.mu.Lock()
-	defer m.mu.Unlock()
-	return m.deleteStream(stream, epoch)
+	err := m.deleteStream(stream, epoch)
+	m.mu.Unlock()
+	if err != nil {
+		return err
+	}
+	m.streamDeleted(stream.GetName(), epoch)
+	return nil
+}
+
+// streamDeleted tells the consumer groups that a stream has been deleted. It
+// runs as part of applying the deletion, so that every server does it at the
+// same point of the committed sequence of operations: done on a goroutine of
+// its own, a later group operation could be applied first and the group's
+// epoch guard would then refuse the deletion on this server only. It must be
+// called without the metadata lock because the groups call back into the
+// metadata store for partition counts.
+func (m *metadataAPI) streamDeleted(name string, epoch uint64) {
+	verifPoint("removeStream:notify-groups")
+	m.consumerGroupsMu.RLock()
+	for _, group := range m.consumerGroups {
+		group.StreamDeleted(name, epoch) // nolint: errcheck
+	}
+	m.consumerGroupsMu.RUnlock()
 }
 
 // LostLeadership should be called when the server loses metadata leadership.
@@ -1515,14 +1560,14 @@ func (m *metadataAPI) deleteStream(stream *stream, epoch uint64) error {
 		return errors.Wrap(err, "failed to delete stream data directory")
 	}
 
-	m.removeStream(stream, epoch)
+	m.removeStream(stream)
 	return nil
 }
 
-// removeStream removes the stream from the stream store, cancels any
-// in-flight failovers for its partitions, and triggers a rebalance of consumer
-// group assignments.
-func (m *metadataAPI) removeStream(stream *stream, epoch uint64) {
+// removeStream removes the stream from the stream store and cancels any
+// in-flight failovers for its partitions. The consumer groups are told by the
+// caller once the metadata lock has been released (see streamDeleted).
+func (m *metadataAPI) removeStream(stream *stream) {
 	delete(m.streams, stream.GetName())
 	for _, partition := range stream.GetPartitions() {
 		failover, ok := m.partitionFailovers[partition]
@@ -1531,14 +1576,6 @@ func (m *metadataAPI) removeStream(stream *stream, epoch uint64) {
 			delete(m.partitionFailovers, partition)
 		}
 	}
-	m.startGoroutine(func() {
-		verifPoint("removeStream:notify-groups")
-		m.consumerGroupsMu.RLock()
-		for _, group := range m.consumerGroups {
-			group.StreamDeleted(stream.GetName(), epoch)
-		}
-		m.consumerGroupsMu.RUnlock()
-	})
 }
 
 func (m *metadataAPI) getStreams() []*stream {
